@@ -6,7 +6,8 @@
    path and query verbatim; the correspondence check evaluates this hypothesis on every target it
    meets.  All other theorems hold for every url_parse. *)
 From SV Require Import Base.Bytes Base.BytesP Base.IO Model.Headers Model.Head Spec.Rfc7230
-  Model.HeadLoops Proofs.HeadP Proofs.HeadReadP Proofs.HeadGrammarP Proofs.HeadClassifyP Proofs.HeadLoopsP.
+  Model.HeadLoops Proofs.HeadP Proofs.HeadReadP Proofs.HeadGrammarP Proofs.HeadClassifyP Proofs.HeadLoopsP
+  Model.RustStr Model.Request Spec.Framing Proofs.RequestLevelP.
 
 (* C02.1  must-accept: a head rendered from a token method, a canonical origin-form target and
    fields name ":" OWS value OWS (token names, values in the field-value grammar) parses to exactly
@@ -93,6 +94,26 @@ Theorem c02_oracle_roundtrip_sound :
       oracle_c02_roundtrip m t fs rest (fst (try_read url_parse b)) (fb_data (snd (try_read url_parse b))) = true.
 Proof. exact oracle_c02_roundtrip_model. Qed.
 
+(* C02.1b  the same at request level ("the parsed request exposes exactly that method, the target's path
+   and query, and every header field in the order sent"): for a must-accept head, whenever the header
+   processing of read_http_request accepts the parsed fields, the request carries the method sent and
+   exactly the fields sent -- names verbatim, values without the surrounding OWS, order kept -- minus
+   the content-type / expect / transfer-encoding fields the library consumes into typed fields. *)
+Theorem c02_request_exposes_head_fields :
+  forall url_parse,
+    (forall t, canonical_target t = true -> url_parse t = Some (path_of t, query_of t)) ->
+    forall rd m t fs rest,
+      is_token m = true -> canonical_target t = true -> forallb field_ok fs = true ->
+      exists h b',
+        try_read url_parse (mk_fbuf rd (render_head m t fs ++ crlf2 ++ rest)) = (Ok h, b') /\
+        fb_data b' = rest /\ h_method h = m /\ h_path h = path_of t /\ h_query h = query_of t /\
+        forall r, request_of_head (h_method h) (h_headers h) = QOk r ->
+          rq_method r = m /\
+          rq_headers r =
+          filter (fun x => negb (eq_ic (fst x) n_content_type || eq_ic (fst x) n_expect ||
+                                 eq_ic (fst x) n_transfer_encoding)) (map field_pair fs).
+Proof. exact request_exposes_head_fields. Qed.
+
 (* C02.7  Defect D2: the parser before the repair accepts a field value with a CR or a NUL inside
    ("A: b\rc", "A: b\0c"), which is outside the field-value grammar; the current parser rejects. *)
 Theorem c02_d2_refuted :
@@ -128,3 +149,4 @@ Print Assumptions c02_oracle_sound.
 Print Assumptions c02_oracle_roundtrip_sound.
 Print Assumptions c02_d2_refuted.
 Print Assumptions c02_trim_whitespace_loop.
+Print Assumptions c02_request_exposes_head_fields.
